@@ -177,4 +177,35 @@ theorem unknown_option_rejected (E : Env) (o : TokV) (rest : List TokV) (d : DRe
 theorem prefix_then_sub (E : Env) (a b : Bytes) (d : DRec) :
     (applyOpt E Token.optPrefix a d >>= applyOpt E Token.optSub b) = (applyOpt E Token.optSub b d >>= applyOpt E Token.optPrefix a) := rfl
 
+/-- a well-formed `option value` pair -/
+def PairOK (p : TokV × TokV) : Prop :=
+  ¬ (p.1.Token = Token.EOF ∨ p.1.Token = Token.sep) ∧ ∃ k, optKind p.1.Token = some k ∧ valueTokenOK k p.2.Token = true
+
+def applyPairs (E : Env) : List (TokV × TokV) → DRec → Except Err DRec
+  | [], d => .ok d
+  | p :: ps, d => match applyOpt E p.1.Token p.2.Value d with
+    | .error e => .error e
+    | .ok d' => applyPairs E ps d'
+
+def flatten : List (TokV × TokV) → List TokV
+  | [] => []
+  | p :: ps => p.1 :: p.2 :: flatten ps
+
+/-- **every option of a well-formed option list is applied, in order, to exactly its field; none is ignored**: the option
+loop on `o₁ v₁ … oₙ vₙ` is the left fold of `applyOpt` over the pairs, or stops at the first conversion error -/
+theorem optLoop_pairs (E : Env) (ps : List (TokV × TokV)) (h : ∀ p ∈ ps, PairOK p) (d : DRec) :
+    (∀ d', applyPairs E ps d = .ok d' → optLoop E (flatten ps) d = .ok (d', ⟨[]⟩)) ∧
+    (∀ e, applyPairs E ps d = .error e → ∃ s, optLoop E (flatten ps) d = .error (e, s)) := by
+  induction ps generalizing d with
+  | nil => constructor <;> intro x hx <;> simp [applyPairs] at hx; subst hx; simp [flatten, optLoop]
+  | cons p ps ih =>
+    obtain ⟨hne, k, hk, hv⟩ := h p (List.mem_cons_self ..)
+    have hrest : ∀ q ∈ ps, PairOK q := fun q hq => h q (List.mem_cons_of_mem _ hq)
+    simp only [flatten, applyPairs]
+    rw [option_step E p.1 p.2 (flatten ps) d k hk hne]
+    simp only [hv, Bool.true_eq_false, if_false]
+    cases ha : applyOpt E p.1.Token p.2.Value d with
+    | error e => constructor <;> intro x hx <;> simp at hx; subst hx; exact ⟨_, rfl⟩
+    | ok d1 => exact ih hrest d1
+
 end Crng.Tie.CodeReadDest
